@@ -85,7 +85,8 @@ class Spec(PropSpec):
     subsys = "Link"
     props_file = "C03.v"
     theorems = ["c03_never_delivered", "c03_inflight_dropped", "c03_state_invariant",
-                "c03_reverse_untouched", "c03_flows_again", "c03_nonvacuous"]
+                "c03_reverse_untouched", "c03_other_links_untouched", "c03_topology_refines_link",
+                "c03_flows_again", "c03_nonvacuous"]
     consts = LINK_CONSTS
     anchors = LINK_ANCHORS
     harness_bins = ["link"]
